@@ -130,8 +130,8 @@ func ReadTxtErrorCode(data TXTConfigSpace) (TXTErrorCode, error) {
 	return TXTErrorCode(u32), nil
 }
 
-// ParseTXTErrorCode returns TXTErrorCode from a raw 64bit value
-func ParseTXTErrorCode(raw uint8) TXTErrorCode {
+// ParseTXTErrorCode returns TXTErrorCode from a raw 32bit value
+func ParseTXTErrorCode(raw uint32) TXTErrorCode {
 	return TXTErrorCode(raw)
 }
 
